@@ -24,7 +24,8 @@ func init() { sweepTable["callerframes"] = sweepCallerFrames }
 // number of zerolog frames on that path plus one (the user's statement), plus
 // whatever the user asked to skip (Caller(k), CallerWithSkipFrameCount(2+k)).
 // Each path yields one arithmetic obligation, discharged by the SMT back end
-// with CallerSkipFrameCount at its default 2.
+// with CallerSkipFrameCount symbolic (default 2; raising it by d moves every
+// site that is based on the global by d frames).
 
 type linForm struct {
 	c     int64
@@ -172,7 +173,9 @@ func sweepCallerFrames(p *Prog, pc *PropConfig, tags string, r *checkResult) {
 	fv.declare("CSFC", SMath)
 	fv.declare("userSkip", SMath)
 	fv.declare("hookSkip", SMath)
-	fv.assert("(= CSFC 2)") // the documented default of CallerSkipFrameCount
+	// CallerSkipFrameCount stays symbolic: its documented default is 2, and a user who raises it by d
+	// (to step over d wrapper frames of their own) moves every site that is based on the global by d
+	fv.assert("(>= CSFC 0)")
 	fv.assert("(>= userSkip 0)")
 	// the runtime.Caller argument inside caller(): skip + e.skipFrame
 	okShape := false
@@ -295,7 +298,12 @@ func (fv *FuncVC) pathObligation(p *Prog, path []*ssa.Function, sites []ssa.Call
 			// value - user's own move == frames + 1
 			value := fmt.Sprintf("(+ %d (* %d CSFC) (* %d userSkip) (* %d hookSkip) %d)", lf.c, lf.csfc, lf.k, lf.hook, extra)
 			move := fmt.Sprintf("(+ (* %d userSkip) (* %d (- hookSkip 2)))", lf.k, lf.hook)
-			goal = fmt.Sprintf("(= (- %s %s) %d)", value, move, nEdges+1)
+			want := fmt.Sprintf("%d", nEdges+1)
+			if lf.hook == 0 {
+				// based on the global setting, read when the event is emitted
+				want = fmt.Sprintf("(+ %d (- CSFC 2))", nEdges+1)
+			}
+			goal = fmt.Sprintf("(= (- %s %s) %s)", value, move, want)
 		}
 		fv.oblige("frames", sanitize(desc), nil, sites[nEdges-1].Pos(), goal,
 			fmt.Sprintf("path %s: runtime.Caller gets %s plus %d from CallerSkipFrame; %d zerolog frames lie between it and the user's statement", desc, lf.String(), extra, nEdges+1))
